@@ -208,9 +208,10 @@ def spaces(tier, seed):
         al = S.alphabet(6)
         out.append(ProductSpace('W(6,5)xcentring', S.word_dims(al, 5) + [opts], eval_pipeline, bounds={'letters': al}))
     else:
-        al = S.alphabet(8, seed, extra=2)
+        al = S.alphabet(6, seed, extra=2)
+        out.append(ProductSpace('W(6,5)xcentring', S.word_dims(S.alphabet(6), 5) + [opts], eval_pipeline, bounds={'letters': S.alphabet(6)}))
         opts = opts + [('b5',), ('trough', 'nc2'), ('dc5',), ('trough', 'x1024')]
-        out.append(ProductSpace('W(10,5)xopts', S.word_dims(al, 5) + [opts], eval_pipeline, bounds={'letters': al}))
+        out.append(ProductSpace('W(8,5)xopts', S.word_dims(al, 5) + [opts], eval_pipeline, bounds={'letters': al}))
         out.append(ProductSpace('W(6,6)xcentring', S.word_dims(S.alphabet(6), 6) + [opts[:2]], eval_pipeline,
                                 bounds={'letters': S.alphabet(6)}))
     return out
